@@ -74,6 +74,8 @@ class Shape:
     free: int = 0                 # > 0: also run with a fully symbolic path of len <= literals + free (thorough: +1)
     example: tuple = ()           # wildcard texts of one matching path (native regression input, see selftest)
     rewritten: bool = False       # some match builds a URL that differs from the path (formatters at work)
+    siblings: tuple = ()          # other rules registered on the same router before this one (the matcher has to abandon
+    #                               their branches and fall back to this rule; only matches of this rule are judged)
 
     @property
     def text(self):
@@ -101,6 +103,11 @@ QUICK_SHAPES = [
     _s("angle-lit-w-lit", L("a"), W("x"), L("/b"), flavour=2, free=2, holes=(4,), example=("q",)),
     _s("w-w", W("x"), L("/"), W("y"), free=4, holes=(2, 2), example=("a", "b")),
     _s("anon-end", L("a/"), W(None), flavour=0, free=3, holes=(4,), example=("q",)),
+    # routers holding more than the rule: siblings whose literal continuation holds a wildcard of its own / a typed filter
+    _s("sib-int", L("a/"), W("c"), L("/"), W("n", "int"), flavour=0, ascii=True, holes=(2, 2), example=("u", "5"),
+       siblings=("/a/u/:w/p", "/a/u")),
+    _s("sib-re", L("a/"), W("c"), L("/"), W("r", "re", "[0-9]x?"), flavour=2, holes=(2, 2), example=("u", "5"),
+       siblings=("/a/u/<w>/p", "/a/<c>/<r:re:[0-9]x?>/q")),
     _s("anon-re", W(None, "re", "to."), holes=(4,), example=("tok",)),
     _s("anon-re-2", W(None, "re", "t."), L("/"), W(None, "re", "[at]."), holes=(2, 2), example=("tk", "ab")),
     _s("anon-named-mix", L("f/"), W(None, "re", "t."), L("/b"), W("some"), L("/"), W(None, "re", "a."), L("e"), holes=(2, 1, 2),
@@ -235,11 +242,16 @@ def roundtrip(shape, path):
     rule = shape.text
     wild = shape.wildcards
     router = RadiRouter()
+    for other in shape.siblings:
+        router.add(other, "GET", _handler)
     route = router.add(rule, "GET", _handler)
     seen = _tap(router)
     first = _resolve(router, seen, path)
     if first is None:
         cover("no-match")
+        return None
+    if first[0] is not route:
+        cover("sibling-matched")
         return None
     cover("matched")
     _route1, named, values = first
